@@ -28,12 +28,18 @@ type PropDef struct {
 	Run      func(w *World)
 	MaxSim   time.Duration
 	MaxSteps int64
+	// PanicIsViolation: a panic recovered in any task is this property's violation
+	// (elsewhere it only makes the run inconclusive).
+	PanicIsViolation bool
+	// Race: the scenario is meant for a -race build; detector reports become violations.
+	Race bool
 	// Mandatory reach probes for the thorough tier.
 	Mandatory []string
 }
 
 var Props = map[string]*PropDef{}
 
+//go:norace
 func Register(p *PropDef) { Props[p.ID] = p }
 
 // Tapes is the replayable description of one run.
@@ -69,6 +75,7 @@ type World struct {
 
 const maxSampleEvents = 48
 
+//go:norace
 func (w *World) Violate(class, key, detail string) {
 	simrt.RaceDisable()
 	w.cmu.Lock()
@@ -85,6 +92,7 @@ func (w *World) Violate(class, key, detail string) {
 	w.Logf("VIOLATION", "%s %s: %s", class, key, detail)
 }
 
+//go:norace
 func (w *World) Probe(name string) {
 	simrt.RaceDisable()
 	w.cmu.Lock()
@@ -93,6 +101,7 @@ func (w *World) Probe(name string) {
 	simrt.RaceEnable()
 }
 
+//go:norace
 func (w *World) Fault(name string) {
 	simrt.RaceDisable()
 	w.cmu.Lock()
@@ -102,6 +111,7 @@ func (w *World) Fault(name string) {
 	simrt.RaceEnable()
 }
 
+//go:norace
 func (w *World) State(name string) {
 	simrt.RaceDisable()
 	w.cmu.Lock()
@@ -110,6 +120,7 @@ func (w *World) State(name string) {
 	simrt.RaceEnable()
 }
 
+//go:norace
 func (w *World) MarkNontrivial() {
 	simrt.RaceDisable()
 	w.cmu.Lock()
@@ -118,27 +129,37 @@ func (w *World) MarkNontrivial() {
 	simrt.RaceEnable()
 }
 
+//go:norace
 func (w *World) Cfg(k string, v interface{}) { w.Config[k] = v }
 
 // Logf records an event: folded into the run hash, kept in the sample prefix.
+//
+//go:norace
 func (w *World) Logf(kind, format string, a ...interface{}) {
+	// all formatting happens before the race detector's sync events are switched off:
+	// fmt recycles its printers through a sync.Pool whose ordering must stay visible
 	d := fmt.Sprintf(format, a...)
+	line := "t=" + w.Since().String() + " " + kind + " " + d
 	if w.Sched != nil {
 		w.Sched.Log(kind, d)
 	}
 	simrt.RaceDisable()
 	w.cmu.Lock()
 	if w.traceAll || len(w.Events) < maxSampleEvents {
-		w.Events = append(w.Events, fmt.Sprintf("t=%s %s %s", w.Since(), kind, d))
+		w.Events = append(w.Events, line)
 	}
 	w.cmu.Unlock()
 	simrt.RaceEnable()
 }
 
 // Since is simulated time since the start of the run.
+//
+//go:norace
 func (w *World) Since() time.Duration { return time.Since(w.T0) }
 
 // SettleNet settles repeatedly until no injected bytes remain in flight.
+//
+//go:norace
 func (w *World) SettleNet(conns ...*Conn) {
 	for i := 0; i < 10000; i++ {
 		simrt.Settle()
@@ -204,6 +225,8 @@ type RunResult struct {
 // policyFor draws the scheduling policy of a run from its own seed (not from a
 // tape: the policy only shapes how schedule values are generated; the values
 // themselves are what is recorded and replayed).
+//
+//go:norace
 func policyFor(seed uint64) (stickyDen, budget int) {
 	r := rng{s: seed ^ 0x5ced}
 	switch r.intn(6) {
@@ -225,6 +248,8 @@ func policyFor(seed uint64) (stickyDen, budget int) {
 var wallLimit = 120 * time.Second
 
 // RunOne executes one run of prop in a fresh synctest bubble.
+//
+//go:norace
 func RunOne(t *testing.T, prop *PropDef, seed uint64, index int, tier string, replay *Tapes, trace bool) *RunResult {
 	rs := mixSeed(seed, uint64(index), 0x77)
 	w := &World{Prop: prop.ID, Seed: seed, Index: index, Tier: tier,
@@ -278,6 +303,19 @@ func RunOne(t *testing.T, prop *PropDef, seed uint64, index int, tier string, re
 	wd.Stop()
 	s := w.Sched
 	res.Wall = time.Since(startWall)
+	if prop.PanicIsViolation {
+		for _, p := range s0(w).Panics {
+			site := panicSite(p.Stack)
+			w.Viol = append(w.Viol, Violation{Class: "panic", Key: site, Detail: fmt.Sprintf("task %s (%s) panicked: %s\n%s", p.Task, p.Name, p.Value, trimStack(p.Stack))})
+		}
+	} else if len(s0(w).Panics) > 0 && w.Inconclusive == "" {
+		w.Inconclusive = "panic"
+	}
+	if prop.Race && simrt.RaceEnabled {
+		rv, ign := collectRaces()
+		w.Viol = append(w.Viol, rv...)
+		w.Probes["race_reports_outside_library_ignored"] += ign
+	}
 	res.Viol = w.Viol
 	res.Inconclusive = w.Inconclusive
 	res.Abort = s.AbortReason()
@@ -295,6 +333,7 @@ func RunOne(t *testing.T, prop *PropDef, seed uint64, index int, tier string, re
 	return res
 }
 
+//go:norace
 func sortedKeys(m map[string]int) []string {
 	ks := make([]string, 0, len(m))
 	for k := range m {
@@ -305,6 +344,8 @@ func sortedKeys(m map[string]int) []string {
 }
 
 // libFrames reduces a goroutine stack dump to the library function names in it.
+//
+//go:norace
 func libFrames(stack string) []string {
 	var out []string
 	for _, l := range strings.Split(stack, "\n") {
@@ -316,4 +357,22 @@ func libFrames(stack string) []string {
 		}
 	}
 	return out
+}
+
+//go:norace
+func s0(w *World) *simrt.Sched { return w.Sched }
+
+//go:norace
+func trimStack(st string) string {
+	lines := strings.Split(st, "\n")
+	var out []string
+	for _, l := range lines {
+		if strings.Contains(l, "simplefix-go") || strings.HasPrefix(l, "panic(") {
+			out = append(out, strings.TrimSpace(l))
+		}
+		if len(out) > 12 {
+			break
+		}
+	}
+	return strings.Join(out, "\n")
 }
